@@ -80,6 +80,26 @@ def run(ctx, only=None):
     ctx.programs = len(bases) + len(exprs)
     ctx.disagreements = len(bad_jops) + len(bad_loop)
 
+    # ---------------- the real control loop around the real adapter: the model's loop hypotheses
+    contract_bad, cstat = [], dict(runs=0, calls=0, handed=0, timeouts=0, key_reuse=0, completed=0)
+    for i in range(ctx.n(40, 500) if only is None else 0):
+        r = J.engine_contract("%d/%d" % (ctx.seed, i), dbs)
+        cstat["runs"] += 1
+        cstat["calls"] += r["ncalls"]
+        cstat["handed"] += r["nhanded"]
+        cstat["timeouts"] += r["timeouts"]
+        cstat["key_reuse"] += r["reused"]
+        cstat["completed"] += 1 if r["done"] else 0
+        ctx.count(1, ("engine", tuple(r["template"]), r["ncalls"], r["timeouts"] > 0, r["reused"] > 0))
+        if r["bad"]:
+            contract_bad.append(r)
+    ctx.suite("journal.engine_contract", failures=len(contract_bad), **cstat)
+    timing['engine'] = round(time.time() - t0, 1)
+    for r in contract_bad[:2]:
+        ctx.violation("C27: the real control loop breaks the calling convention the journal model assumes: %s" % r["bad"][0],
+                      dict(kind="implementation-monitor", suite="journal.engine_contract", case=r,
+                           hypothesis="prog_distinct / loop bookkeeping of Model/Journal.v (enter, finish)"))
+
     # ---------------- the property on the real outputs
     unknown = 0
     seen_keys = set()
@@ -152,6 +172,8 @@ def run(ctx, only=None):
                      ("memo_runs", 20), ("tmo_fired", 5), ("multi_done", 10), ("second_crash", 10), ("stale", 2),
                      ("purge_effective", 5), ("fallbacks", 1), ("nonfirst_pick", 5), ("dup_runs", 1)):
             ctx.require_coverage("journal.loop", k, tot.get(k, 0), m)
+        for k, m in (("completed", 20), ("handed", 200), ("key_reuse", 20), ("timeouts", 1)):
+            ctx.require_coverage("journal.engine_contract", k, cstat[k], m)
     timing['end'] = round(time.time() - t0, 1)
     ctx.suite("journal.timing_cumulative_s", **timing)
     ctx.partial.append("PARTIAL: DBOS is absent from the sandbox; `a recovered DBOS step returns its recorded output and "
@@ -163,8 +185,10 @@ def run(ctx, only=None):
         "dbos / sqlalchemy / asyncpg name-only stubs (harness/shims_ext); operation_outputs created by the harness "
         "with the two columns the purge statement names",
         "the bookkeeping loop of suites/journal.py stands for _ControlLoopRunner.run around wait_for_next_task "
-        "(pending/running lists, removal of the completed task); sqlite3 and asyncio primitives",
-        "hypothesis prog_distinct: the control loop never has two live tasks with the same key (worker slots, pull numbers)",
+        "(pending/running lists, removal of the completed task) — checked on the real control loop by the "
+        "journal.engine_contract monitor; sqlite3 (connections opened with PRAGMA synchronous=OFF) and asyncio primitives",
+        "hypothesis prog_distinct: the control loop never has two live tasks with the same key (worker slots, pull "
+        "numbers) — monitored on the real control loop, proved for the reducer's slots by C01",
     ]
     ctx.assumptions.append("dbos_memo (Section hypothesis): recovered step outputs / durable clock equal the recorded ones")
 
